@@ -4,7 +4,8 @@ from .pools import pick, subset
 
 DASH_PREFIXES = ["Srv", "Wks", "Dsk"]
 
-PATH_VALUES = ["Server/x86_64/os", "compose/Server/os/Packages", "a/b", ".", "ünï/côde", "x" * 50, "Packages"]
+PATH_VALUES = ["Server/x86_64/os", "compose/Server/os/Packages", "a/b", ".", "ünï/côde", "x" * 50, "Packages",
+               "os/Packages/", "a//b", "./x", "x/../y", "/abs/path", " spaced ", "trailing/.", "back\\slash"]
 
 
 def gen_release_for_variant(rng):
@@ -141,6 +142,17 @@ def valid_mutation(K, rng, slot=0):
     """A valid change that alters the serialised content."""
     sl = {"slot": slot} if slot else {}
     r = rng.random()
+    swappable = [v for v in K["vars"] if not any(c["parent"] == v["n"] for c in K["vars"])]
+    if r < 0.15 and swappable:
+        # one arch is replaced by another one (the COUNT stays the same)
+        v = pick(rng, swappable)
+        allowed = pools.ARCHES if v["parent"] is None else K["vars"][v["parent"]]["arches"]
+        fresh = [a for a in allowed if a not in v["arches"]]
+        if fresh:
+            new_arches = sorted(v["arches"][1:] + [pick(rng, fresh)])
+            o = {"op": "var_set", "var": v["n"], "field": "arches", "value": new_arches}
+            o.update(sl)
+            return o
     if r < 0.4:
         o = {"op": "ci_set", "sec": "compose", "field": "respin", "value": rng.randint(3, 9)}
     elif r < 0.7:
